@@ -198,3 +198,102 @@
     #[kani::unwind(8)]
     //@ERR
     fn c04_l2_error_is_sticky_truncated() { l2_error_is_sticky::<true>(); }
+
+    // ---------------------------------------------------------------- C05.exact: fixed-width field helpers of src/lib.rs
+    /// ByteReader over a source with short reads / Interrupted / a hard error / early EOF: a value is returned only if ALL
+    /// its bytes were delivered (little / big endian as named); EOF before that => Err(EOF) - never a value made of
+    /// missing bytes (a zero byte at EOF would read as the LZMA2 end marker); the source's error kind is returned.
+    fn byte_reader_fields<const WHICH: u8>() {
+        use crate::ByteReader;
+        let d: [u8; 8] = vk::any();
+        let avail: usize = vk::any();
+        vk::assume(avail <= 8);
+        let which: u8 = WHICH;
+        let mut src = vk::IoAny::<8>::new(d, avail);
+        src.short = true;
+        src.interrupts_left = 1;
+        src.fail_at = vk::any();
+        let (need, got): (usize, crate::Result<u64>) = match which {
+            0 => (1, src.read_u8().map(|v| v as u64)),
+            1 => (2, src.read_u16().map(|v| v as u64)),
+            2 => (2, src.read_u16_be().map(|v| v as u64)),
+            3 => (4, src.read_u32().map(|v| v as u64)),
+            4 => (4, src.read_u32_be().map(|v| v as u64)),
+            _ => (8, src.read_u64()),
+        };
+        match got {
+            Ok(v) => {
+                assert!(avail >= need && src.pos == need, "value returned without all of its bytes");
+                let want = match which {
+                    0 => d[0] as u64,
+                    1 => u16::from_le_bytes([d[0], d[1]]) as u64,
+                    2 => u16::from_be_bytes([d[0], d[1]]) as u64,
+                    3 => u32::from_le_bytes([d[0], d[1], d[2], d[3]]) as u64,
+                    4 => u32::from_be_bytes([d[0], d[1], d[2], d[3]]) as u64,
+                    _ => u64::from_le_bytes(d),
+                };
+                assert!(v == want);
+            }
+            Err(e) => match vk::kind_of(&e) {
+                vk::Kind::Eof => assert!(avail < need),
+                vk::Kind::Unknown => assert!(src.calls > src.fail_at),
+                _ => assert!(false, "error kind the source never produced (Interrupted must be retried)"),
+            },
+        }
+        assert!(src.pos <= need);
+    }
+    #[kani::proof]
+    #[kani::unwind(12)]
+    //@ERR
+    fn c05_byte_reader_u8() { byte_reader_fields::<0>(); }
+    #[kani::proof]
+    #[kani::unwind(12)]
+    //@ERR
+    fn c05_byte_reader_u16() { byte_reader_fields::<1>(); }
+    #[kani::proof]
+    #[kani::unwind(12)]
+    //@ERR
+    fn c05_byte_reader_u16_be() { byte_reader_fields::<2>(); }
+    #[kani::proof]
+    #[kani::unwind(12)]
+    //@ERR
+    fn c05_byte_reader_u32() { byte_reader_fields::<3>(); }
+    #[kani::proof]
+    #[kani::unwind(12)]
+    //@ERR
+    fn c05_byte_reader_u32_be() { byte_reader_fields::<4>(); }
+    #[kani::proof]
+    #[kani::unwind(12)]
+    //@ERR
+    fn c05_byte_reader_u64() { byte_reader_fields::<5>(); }
+    /// ByteWriter: exactly the value's bytes in the named order, through write_all
+    #[kani::proof]
+    #[kani::unwind(12)]
+    //@ERR
+    fn c05_byte_writer_fields() {
+        use crate::ByteWriter;
+        let v: u64 = vk::any();
+        let mut s = vk::SinkAny::<16>::new();
+        s.short = true;
+        assert!(s.write_u8(v as u8).is_ok() && s.write_u16(v as u16).is_ok() && s.write_u32(v as u32).is_ok() && s.write_u64(v).is_ok());
+        assert!(s.len == 15);
+        let b = v.to_le_bytes();
+        assert!(s.buf[0] == b[0] && s.buf[1] == b[0] && s.buf[2] == b[1] && s.buf[3] == b[0] && s.buf[6] == b[3] && s.buf[7] == b[0] && s.buf[14] == b[7]);
+    }
+
+    /// C05 / C16: an LZMA2 stream that ends (EOF) where the next chunk's control byte is due - the 0x00 terminator is
+    /// missing - is an error (EOF), after the complete chunks were delivered; it is never taken for a clean end.
+    #[kani::proof]
+    #[kani::unwind(8)]
+    //@ERR
+    fn c05_l2_missing_terminator() {
+        let p: u8 = vk::any();
+        let stream: [u8; 4] = [0x01, 0x00, 0x00, p];
+        let mut r = core::mem::ManuallyDrop::new(LZMA2Reader::new(vk::Src::<4>::new(stream, 4), 4096, None));
+        let mut out = [0u8; 1];
+        let r1 = r.read(&mut out);
+        assert!(matches!(r1, Ok(1)) && out[0] == p);
+        let r2 = r.read(&mut out);
+        assert!(r2.is_err(), "truncated LZMA2 stream (no end marker) reported as a clean end");
+        if let Err(e) = &r2 { assert!(vk::kind_of(e) == vk::Kind::Eof); }
+    }
